@@ -15,7 +15,8 @@ LINEAR="C09 C10 C11 C12 C16 C17 C18"
 CORE="C06 C07 C08 C09 C13 C14 C16 C17 C18 C10 C11"
 for patch in "$DIR"/*"$SUF"/OUT/patch*.diff; do
   name="$(basename "$(dirname "$(dirname "$patch")")")/$(basename "$patch")"
-  grep -q "^$name:" "$LOG" && continue   # already done in an earlier (interrupted) invocation
+  grep -q "^$name:" "$LOG" && continue   # already done in an earlier (interrupted) invocation, or claimed by another lab
+  [ -n "${BENIGN_CLAIM:-}" ] && echo "$name:CLAIMED by $LAB" >> "$LOG"
   git -C "$LAB/repo" checkout -q -- . ; git -C "$LAB/repo" apply "$patch" || { echo "$name: does not apply" >> "$LOG"; continue; }
   bad=""
   IDS=""
